@@ -179,6 +179,8 @@ pub struct LiveActor {
     /// Sync state per replica and peer
     state: NamespaceStates,
     metrics: Arc<Metrics>,
+    #[cfg(feature = "verif")]
+    verif_dials: Option<Vec<VerifDial>>,
 }
 impl LiveActor {
     /// Create the live actor.
@@ -217,6 +219,8 @@ impl LiveActor {
             queued_hashes: Default::default(),
             hash_providers: Default::default(),
             metrics,
+            #[cfg(feature = "verif")]
+            verif_dials: None,
         })
     }
 
@@ -363,6 +367,11 @@ impl LiveActor {
     #[instrument("connect", skip_all, fields(peer = %peer.fmt_short(), namespace = %namespace.fmt_short()))]
     fn sync_with_peer(&mut self, namespace: NamespaceId, peer: PublicKey, reason: SyncReason) {
         if !self.state.start_connect(&namespace, peer, reason) {
+            return;
+        }
+        #[cfg(feature = "verif")]
+        if let Some(dials) = self.verif_dials.as_mut() {
+            dials.push((namespace, peer, reason));
             return;
         }
         let endpoint = self.endpoint.clone();
@@ -1002,5 +1011,38 @@ mod tests {
         drop(a_rx);
         drop(b_rx);
         subscribers.send(Event::NeighborUp(pk)).await;
+    }
+}
+
+/// A dial decision recorded by the verification dial sink.
+#[cfg(feature = "verif")]
+pub type VerifDial = (NamespaceId, PublicKey, SyncReason);
+
+#[cfg(feature = "verif")]
+#[allow(missing_docs)]
+impl LiveActor {
+    pub fn verif_enable_dial_sink(&mut self) {
+        self.verif_dials = Some(Vec::new());
+    }
+    pub fn verif_take_dials(&mut self) -> Vec<VerifDial> {
+        self.verif_dials.as_mut().map(std::mem::take).unwrap_or_default()
+    }
+    pub fn verif_snapshot(&self, namespace: &NamespaceId, node: &PublicKey) -> Option<super::state::VerifPeerState> {
+        self.state.verif_snapshot(namespace, node)
+    }
+    pub async fn verif_on_actor_message(&mut self, msg: ToLiveActor) -> anyhow::Result<bool> {
+        self.on_actor_message(msg).await
+    }
+    pub fn verif_sync_with_peer(&mut self, namespace: NamespaceId, peer: PublicKey, reason: SyncReason) {
+        self.sync_with_peer(namespace, peer, reason)
+    }
+    pub async fn verif_on_connect_finished(&mut self, namespace: NamespaceId, peer: PublicKey, reason: SyncReason, result: Result<SyncFinished, ConnectError>) {
+        self.on_sync_via_connect_finished(namespace, peer, reason, result).await
+    }
+    pub async fn verif_on_accept_finished(&mut self, res: Result<SyncFinished, AcceptError>) {
+        self.on_sync_via_accept_finished(res).await
+    }
+    pub async fn verif_shutdown(&mut self) -> anyhow::Result<()> {
+        self.shutdown().await
     }
 }
